@@ -431,6 +431,11 @@ func GenFile(rng *Rand, o FileGenOpts) *fit.File {
 			FillMesg(rng, s.Global, m, &o)
 			fv.Set(reflect.Append(fv, m))
 		}
+		if n == 0 && fv.Kind() == reflect.Slice && rng.Chance(1, 2) {
+			// an empty slice that is not nil (records[:0], make([]*T, 0, n), a literal []*T{}):
+			// it holds no messages, like a nil one
+			fv.Set(reflect.MakeSlice(fv.Type(), 0, rng.Intn(4)))
+		}
 	}
 	return f
 }
